@@ -464,7 +464,7 @@ Proof.
   induction qs as [|q qs IH]; intros s s' HE HV I1 I2 Q1 Q2 EV EC; simpl.
   { auto. }
   simpl in HV. apply Bool.andb_true_iff in HV. destruct HV as [Hq HV].
-  destruct q as [t|t|fv sc].
+  destruct q as [t|t|fv sc|]; [| | | simpl; auto].
   - destruct (cluster_inv e s t HE I1 Q1) as [s1 [E1 [J1 [K1 [V1 C1]]]]].
     destruct (cluster_inv e s' t HE I2 Q2) as [s1' [E1' [J1' [K1' [V1' C1']]]]].
     rewrite E1, E1'. rewrite <- EC.
